@@ -81,7 +81,10 @@ DECIDING = [P_CLOSURE, '_CircuitFunction.backward', '_KnillLaflammeInnerProductT
             'history/circuit/cotangent-reuse', 'history/circuit/expanded-cotangent', 'history/circuit/updates',
             'history/kl/cotangent-reuse', 'history/kl/updates', 'history/sqrtm/updates', 'history/logm/updates',
             'history/sqrtm/expanded-cotangent', 'history/logm/expanded-cotangent', 'layout/sqrtm', 'layout/logm', 'dtype/sqrtm', 'dtype/logm',
-            'order/sqrtm', 'order/logm', 'order/circuit']
+            'order/sqrtm', 'order/logm', 'order/circuit',
+            # exact special values, loss kinds x logical dimensions, API surface
+            'kl-loss/grad-vs-fd', 'kl-loss/grad-vs-autograd', 'api/positional-vs-keyword', 'api/circuit-forms',
+            'history/sqrtm/fd-hermitian', 'history/logm/fd-hermitian']
 
 EPS = np.finfo(np.float64).eps
 STEPS = (1e-5, 1e-6)
@@ -112,7 +115,7 @@ def shards(tier, seed):
 
 # =================================================================================================== generic helpers
 def _np(x):
-    return x.detach().cpu().numpy() if isinstance(x, torch.Tensor) else np.asarray(x)
+    return x.detach().resolve_conj().cpu().numpy() if isinstance(x, torch.Tensor) else np.asarray(x)
 
 
 def _worst(ctx, table, point, value):
@@ -691,12 +694,28 @@ def _holder_source(rng, npar):
     return ['P', 'v', int(rng.integers(2))]
 
 
-def gen_program(rng, nmin=1, nmax=4, lmax=12, placeholders=True):
-    """random gate program (JSON-able), see vmon/ref/gradref.py for the format. Returns dict."""
+SPECIAL_ANGLES = [0.0, np.pi / 2, np.pi, 2 * np.pi]
+
+
+def special_angles(rng, k, mode):
+    """k angles; mode None: generic in [0,2pi); 'zero': all exactly 0.0 (the args=None default: the gate IS the identity);
+    'mixed': whole gate exactly 0 (p=.35), else each angle exactly 0 / pi/2 / pi / 2pi or generic."""
+    if mode is None:
+        return [float(x) for x in rng.uniform(0, 2 * np.pi, size=k)]
+    if mode in ('zero', 'noargs') or rng.random() < 0.35:
+        return [0.0] * k
+    return [float(SPECIAL_ANGLES[int(rng.integers(4))]) if rng.random() < 0.6 else float(rng.uniform(0, 2 * np.pi)) for _ in range(k)]
+
+
+def gen_program(rng, nmin=1, nmax=4, lmax=12, placeholders=True, special=None):
+    """random gate program (JSON-able), see vmon/ref/gradref.py for the format. Returns dict.
+    special: None | 'zero' | 'noargs' (trainable Circuit-method gates built WITHOUT args, i.e. zero-initialised) | 'mixed'."""
     n = int(rng.integers(nmin, nmax + 1))
     L = int(rng.integers(1, lmax + 1))
     prog, mats, rows, feats = [], {}, {}, set()
-    ang = lambda k: [float(x) for x in rng.uniform(0, 2 * np.pi, size=k)]
+    ang = lambda k: special_angles(rng, k, special)
+    if special:
+        feats.add(f'special-angles({special})')
 
     def par_source(name, npar, allow_holder=True):
         r = rng.random()
@@ -800,7 +819,7 @@ def gen_program(rng, nmin=1, nmax=4, lmax=12, placeholders=True):
     n_eff = max(used) + 1
     if any(op.get('p') and op['p'][0] == 'P' and op.get('ctrl') for op in prog):
         feats.add('placeholder-control')
-    return {'n': n_eff, 'prog': prog, 'mats': mats, 'theta': rows, 'features': sorted(feats)}
+    return {'n': n_eff, 'prog': prog, 'mats': mats, 'theta': rows, 'features': sorted(feats), 'special': special}
 
 
 def _np_or_torch_kron(a, b):
@@ -839,12 +858,14 @@ def build_circuit(numqi, spec):
                 args = tuple(p[1])
             else:
                 args = tuple(spec['theta'][p[1]][p[2]])
+            noargs = spec.get('special') == 'noargs' and p[0] == 'theta'  # default construction: circ.ry(i), circ.cu3(c, t)
             if g in ('rx', 'ry', 'rz', 'u3'):
-                gate = getattr(circ, g)(tg[0], args, requires_grad=rg)
+                gate = getattr(circ, g)(tg[0]) if noargs else getattr(circ, g)(tg[0], args, requires_grad=rg)
             elif g == 'rzz':
-                gate = circ.rzz(tg, args, requires_grad=rg)
+                gate = circ.rzz(tg) if noargs else circ.rzz(tg, args, requires_grad=rg)
             elif g in ('crx', 'cry', 'crz', 'cu3') and p[0] != 'P':
-                gate = getattr(circ, g)(ct if len(ct) > 1 else ct[0], tg[0], args, requires_grad=rg)
+                c_ = ct if len(ct) > 1 else ct[0]
+                gate = getattr(circ, g)(c_, tg[0]) if noargs else getattr(circ, g)(c_, tg[0], args, requires_grad=rg)
             elif g == 'rxz':
                 gate = numqi.sim.ParameterGate('unitary', fns[g], args, name=g, requires_grad=rg)
                 circ.append_gate(gate, tg)
@@ -972,8 +993,9 @@ def ref_circuit(spec, values, H, psi0, train_state, shift=0, loss_fn=None):
 
 def run_circuit_case(ctx, numqi, st, it):
     rng = ctx.rng
+    special = [None, None, None, 'mixed', None, None, 'zero', None, None, 'noargs'][it % 10]
     while True:
-        spec = gen_program(rng)
+        spec = gen_program(rng, special=special)
         train_state = bool(rng.random() < 0.3)
         has_par = any(op.get('p') and op['p'][0] in ('theta', 'P') for op in spec['prog'])
         if has_par or train_state:
@@ -985,9 +1007,10 @@ def run_circuit_case(ctx, numqi, st, it):
     psi0 = rng.normal(size=N) + 1j * rng.normal(size=N)
     psi0 /= np.linalg.norm(psi0)
     keys = sorted({op['p'][1] for op in spec['prog'] if op.get('p') and op['p'][0] == 'P'})
-    P_init = {k: rng.uniform(0, 2 * np.pi, size=PSHAPES[k]) for k in keys}
+    P_init = {k: np.array(special_angles(rng, int(np.prod(PSHAPES[k])) if PSHAPES[k] else 1, 'mixed' if special == 'mixed' else special)).reshape(PSHAPES[k])
+              for k in keys}
     desc = {'kind': 'circuit', 'n': n, 'program': [{k: v for k, v in op.items()} for op in spec['prog']], 'theta': spec['theta'],
-            'train_state': train_state, 'features': spec['features']}
+            'train_state': train_state, 'features': spec['features'], 'special': special}
     ctx.set_case(desc)
     for f in spec['features'] + (['initial-state-grad'] if train_state else []):
         _count(ctx, 'programs_with_feature', f)
@@ -1029,6 +1052,10 @@ def run_circuit_case(ctx, numqi, st, it):
                       'flat gradient of the bridge differs from the parameter .grad in sorted-name order', desc, point='bridge/flat-layout')
             # (3) a fresh random parameter point in [0, 2pi) (state coordinates: normal)
             theta1 = np.array([rng.normal() if c == 'initial-state' else rng.uniform(0, 2 * np.pi) for c in classes])
+            if special:  # a point where SOME coordinates are exactly 0 / pi/2 / pi / 2pi and the others generic
+                for i_, c in enumerate(classes):
+                    if c != 'initial-state' and rng.random() < 0.5:
+                        theta1[i_] = 0.0 if rng.random() < 0.6 else SPECIAL_ANGLES[int(rng.integers(4))]
             fval1, grad1 = hf(theta1)
             values1 = dict_from_flat(names_shapes, theta1)
             lref1, gref1, _ = ref_circuit(spec, values1, H, psi0, train_state)
@@ -1129,6 +1156,116 @@ def run_kl(ctx, numqi, st, shard):
                 cmp_grad(ctx, got, ref, 'kl/grad-vs-autograd', 'Knill-Laflamme inner product .grad', 'kl/grad-vs-autograd', witness=desc)
             else:
                 ctx.inconclusive('kl/reference-forward-mismatch')
+    kl_loss_grid(ctx, numqi, st)
+
+
+def kl_loss_grid(ctx, numqi, st):
+    """numqi.qec.knill_laflamme_loss(inner_product, kind) for kind in {L1, L2} x num_logical_dim in {1,2,3,4}: gradient w.r.t. the
+    code words through the custom inner product, vs finite differences of the numpy path and autograd of the reference loss."""
+    rng = ctx.rng
+    kli, kll = numqi.qec.knill_laflamme_inner_product, numqi.qec.knill_laflamme_loss
+    for K in (1, 2, 3, 4):
+        Kc = 1 if K == 1 else 2**int(math.ceil(math.log2(K)))
+        for kind in ('L1', 'L2'):
+            for rep in range(2):
+                n = int(rng.integers(2, 4))
+                ops = rand_op_list(rng, n) if rep else numqi.qec.make_error_list(n, 2)
+                q0 = rng.normal(size=(Kc, 2**n)) + 1j * rng.normal(size=(Kc, 2**n))
+                desc = {'kind': 'kl-loss-grid', 'n': n, 'K': K, 'loss': kind, 'errors': 'random' if rep else 'make_error_list(n,2)'}
+                ctx.set_case(desc)
+                with ctx.guard('kl-loss'):
+                    qr = torch.tensor(q0.real.copy(), requires_grad=True)
+                    qi = torch.tensor(q0.imag.copy(), requires_grad=True)
+                    loss = kll(kli(torch.complex(qr, qi), ops)[:, :K, :K], kind)  # positional kind
+                    loss.backward()
+                    got = np.concatenate([_np(qr.grad).reshape(-1), _np(qi.grad).reshape(-1)])
+                    ctx.case('kl-loss-grid', K, kind, n, q0, nontrivial=float(np.abs(got).max()) > 1e-8)
+                    _count(ctx, 'kl_loss_grid', f'K={K}/{kind}')
+
+                    def f(x):
+                        z = x[:Kc * 2**n].reshape(Kc, -1) + 1j * x[Kc * 2**n:].reshape(Kc, -1)
+                        return float(kll(kli(z, ops)[:, :K, :K], kind=kind))  # numpy path, keyword kind
+                    x0 = np.concatenate([q0.real.reshape(-1), q0.imag.reshape(-1)])
+                    fd_judge(ctx, f, x0, got, f'kl-loss/grad-vs-fd/{kind}', f'knill_laflamme_loss({kind}) of K={K} code words', 'kl-loss/grad-vs-fd', witness=desc)
+                    qr2 = torch.tensor(q0.real.copy(), requires_grad=True)
+                    qi2 = torch.tensor(q0.imag.copy(), requires_grad=True)
+                    l2 = R.kl_loss(R.kl_inner_product(torch.complex(qr2, qi2), ops, n)[:, :K, :K], kind)
+                    if abs(float(l2.item()) - float(loss.item())) <= 1e-9 * (1 + abs(float(l2.item()))):
+                        l2.backward()
+                        ref = np.concatenate([_np(qr2.grad).reshape(-1), _np(qi2.grad).reshape(-1)])
+                        cmp_grad(ctx, got, ref, f'kl-loss/grad-vs-autograd/{kind}', f'knill_laflamme_loss({kind}) of K={K} code words', 'kl-loss/grad-vs-autograd', witness=desc)
+                    else:
+                        ctx.inconclusive('kl-loss/reference-forward-mismatch')
+                    # keyword call of the torch path gives the same value and gradient as the positional one
+                    qr3 = torch.tensor(q0.real.copy(), requires_grad=True)
+                    qi3 = torch.tensor(q0.imag.copy(), requires_grad=True)
+                    l3 = kll(inner_product=kli(q0=torch.complex(qr3, qi3), op_list=ops)[:, :K, :K], kind=kind)
+                    l3.backward()
+                    ctx.close(np.concatenate([[l3.item()], _np(qr3.grad).reshape(-1), _np(qi3.grad).reshape(-1)]), np.concatenate([[loss.item()], got]),
+                              1e-12 * (1 + np.abs(got).max()), 'knill_laflamme_loss/positional-call-differs-from-keyword-call',
+                              'knill_laflamme_inner_product / knill_laflamme_loss called with keywords differ from the positional call', desc, point='api/positional-vs-keyword')
+                    if kind == 'L2':  # default vs explicit
+                        l4 = kll(kli(torch.complex(torch.tensor(q0.real), torch.tensor(q0.imag)), ops)[:, :K, :K])
+                        ctx.close(l4, loss.detach(), 1e-12 * (1 + abs(loss.item())), 'knill_laflamme_loss/explicit-default-differs',
+                                  "knill_laflamme_loss(ip) differs from knill_laflamme_loss(ip, 'L2')", desc, point='api/positional-vs-keyword')
+
+
+def varqec_grid(ctx, numqi, st):
+    """loss kinds {L1, L2} x num_logical_dim {1,2,3,4} on the shipped-style u3/cu3 ansatz built with DEFAULT args (all angles 0),
+    evaluated at a generic point and (L2, where the loss is differentiable) at points with some angles exactly 0 / pi / 2pi."""
+    rng = ctx.rng
+    n = 3
+    prog, rows = [], {'u3': [], 'cu3': []}
+    for x in range(n):
+        rows['u3'].append([0.0, 0.0, 0.0])
+        prog.append({'g': 'u3', 'tgt': [x], 'ctrl': [], 'p': ['theta', 'u3', len(rows['u3']) - 1]})
+    for x in range(n):
+        rows['cu3'].append([0.0, 0.0, 0.0])
+        prog.append({'g': 'cu3', 'tgt': [(x + 1) % n], 'ctrl': [x], 'p': ['theta', 'cu3', len(rows['cu3']) - 1]})
+    for x in range(n):
+        rows['u3'].append([0.0, 0.0, 0.0])
+        prog.append({'g': 'u3', 'tgt': [x], 'ctrl': [], 'p': ['theta', 'u3', len(rows['u3']) - 1]})
+    spec = {'n': n, 'prog': prog, 'mats': {}, 'theta': rows, 'features': ['special-angles(noargs)'], 'special': 'noargs'}
+    ops = numqi.qec.make_error_list(n, 2)
+    for K in (1, 2, 3, 4):
+        nlq = int(math.ceil(math.log2(K))) if K > 1 else 0
+        for kind in ('L1', 'L2'):
+            desc = {'kind': 'varqec-grid', 'n': n, 'K': K, 'loss': kind, 'ansatz': 'u3 / cu3 ring / u3 built with default args'}
+            ctx.set_case(desc)
+            with ctx.guard('varqec'):
+                model = numqi.qec.VarQEC(build_circuit(numqi, spec), K, ops, kind)  # positional, as in the repository tests
+                named = sorted_named(model)
+                names_shapes = [(k, tuple(v.shape)) for k, v in named]
+                classes = coordinate_classes(spec, names_shapes)
+                ntheta = len(classes)
+                points = [('generic', rng.uniform(0, 2 * np.pi, size=ntheta))]
+                if kind == 'L2':
+                    t = rng.uniform(0, 2 * np.pi, size=ntheta)
+                    t[rng.random(ntheta) < 0.5] = 0.0
+                    points.append(('some-exactly-zero', t))
+                    t = rng.uniform(0, 2 * np.pi, size=ntheta).reshape(-1, 3)
+                    t[rng.random(len(t)) < 0.5] = 0.0  # whole gates exactly at the identity
+                    points.append(('some-gates-exactly-identity', t.reshape(-1)))
+                    t = np.array([SPECIAL_ANGLES[int(i_)] for i_ in rng.integers(4, size=ntheta)])
+                    points.append(('all-special', t))
+                psi0 = np.zeros(2**(nlq + n), dtype=np.complex128)
+                for k in range(K):
+                    psi0[k * 2**n + k] = 1
+                for label, theta in points:
+                    st['closure'] = {'key': f'varqec/grad-vs-fd/{kind}', 'point': 'varqec/grad-vs-fd', 'classes': classes, 'tag': dict(desc, point=label)}
+                    try:
+                        fval, grad = numqi.optimize.hf_model_wrapper(model)(theta)
+                    finally:
+                        st['closure'] = None
+                    ctx.case('varqec-grid', K, kind, label, theta, nontrivial=float(np.abs(grad).max()) > 1e-8)
+                    _count(ctx, 'varqec_grid_points', f'K={K}/{kind}/{label}')
+                    lref, gref, _ = ref_circuit(spec, dict_from_flat(names_shapes, theta), None, psi0, False, shift=nlq,
+                                                loss_fn=_varqec_ref_loss(K, nlq, n, ops, kind))
+                    if abs(lref - fval) <= 1e-9 * (1 + abs(lref)):
+                        cmp_grad(ctx, grad, flat_from_dict(names_shapes, gref), f'varqec/grad-vs-autograd/{kind}', f'VarQEC({kind}, K={K}) gradient at a {label} point',
+                                 'varqec/grad-vs-autograd', classes=classes, witness=dict(desc, point=label))
+                    else:
+                        ctx.inconclusive('varqec/reference-forward-mismatch')
 
 
 def _varqec_ref_loss(K, nlq, n, ops, kind):
@@ -1142,15 +1279,17 @@ def _varqec_ref_loss(K, nlq, n, ops, kind):
 def run_varqec(ctx, numqi, st, shard):
     rng = ctx.rng
     ctx.workload('random', shard['n'])
+    ctx.workload('corner', 8)
+    varqec_grid(ctx, numqi, st)
     for it in range(shard['n']):
         while True:
             spec = gen_program(rng, nmin=2, nmax=4, placeholders=False)
             if any(op.get('p') and op['p'][0] == 'theta' for op in spec['prog']) and spec['n'] >= 2:
                 break
         n = spec['n']
-        K = int(rng.integers(2, 5))
-        nlq = int(math.ceil(math.log2(K)))
-        kind = ['L1', 'L2'][it % 2]
+        K = min([2, 3, 4, 3][it % 4], 2**n)  # (K=1 and the full {1,2,3,4} x {L1,L2} grid: varqec_grid above)
+        nlq = int(math.ceil(math.log2(K))) if K > 1 else 0
+        kind = ['L1', 'L2'][(it // 4) % 2]
         realistic = rng.random() < 0.4
         ops = numqi.qec.make_error_list(n, 2) if realistic else rand_op_list(rng, n)
         desc = {'kind': 'varqec', 'n': n, 'K': K, 'loss': kind, 'program': spec['prog'], 'theta': spec['theta'],
@@ -1243,6 +1382,10 @@ def gen_psd_item(rng, d, cplx, cls):
         r = d - 1
         X0 = _cplx(rng, (d, r), cplx)
         build = lambda X: X @ _H(X) / d
+    elif cls in ('exact-identity', 'exact-diagonal'):  # A = X X^H with X exactly I / exactly diagonal: A is exactly I / diagonal
+        diag = np.ones(d) if cls == 'exact-identity' else np.sqrt(np.array([[0.5, 1.25, 2.0][int(i)] for i in rng.integers(0, 3, size=d)]))
+        X0 = np.diag(diag).astype(np.complex128 if cplx else np.float64)
+        build = lambda X: X @ _H(X)
     else:
         raise KeyError(cls)
     return {'cls': cls, 'X0': X0, 'build': build}
@@ -1283,8 +1426,8 @@ def run_matfun(ctx, numqi, st, shard):
     fn = shard['kind']
     ctx.workload('random', shard['n'])
     TO = numqi._torch_op
-    classes_s = ['full', 'full', 'degenerate', 'identity', 'zero-eig', 'rank-def']
-    classes_l = ['full', 'full', 'degenerate', 'identity']
+    classes_s = ['full', 'full', 'degenerate', 'identity', 'zero-eig', 'rank-def', 'exact-identity', 'exact-diagonal']
+    classes_l = ['full', 'full', 'degenerate', 'identity', 'exact-identity', 'exact-diagonal']
     for it in range(shard['n']):
         d = int(rng.integers(2, 6))
         cplx = bool(rng.random() < 0.6)
@@ -1363,13 +1506,13 @@ def run_matfun(ctx, numqi, st, shard):
                     _, Xs_ = _leaves(items, cplx, False, flat=x)
                     return float((op(stackA(Xs_)).reshape(nb, d, d) * Wt.conj()).real.sum())
             tag = '/zero-eig' if 'zero-eig' in cls_list else ('/rank-deficient-support' if 'rank-def' in cls_list else
-                                                           ('/degenerate-spectrum' if set(cls_list) & {'degenerate', 'identity'} else ''))
+                                                           ('/degenerate-spectrum' if set(cls_list) & {'degenerate', 'identity', 'exact-identity', 'exact-diagonal'} else ''))
             if nb > 1:
                 tag += '/batched'
             fd_judge(ctx, f, x0, got, f'{fn}/grad-vs-fd{tag}', f'{fn} of a PSD matrix: leaf .grad', f'{fn}/grad-vs-fd', kappa=kappa, witness=desc)
             # autograd through the reference re-implementation(s)
             for method in ('eigh', 'db'):
-                if method == 'eigh' and any(c in ('degenerate', 'identity') for c in cls_list):
+                if method == 'eigh' and any(c in ('degenerate', 'identity', 'exact-identity', 'exact-diagonal') for c in cls_list):
                     continue  # eigh autograd is singular for degenerate spectra
                 if method == 'db' and any(c in ('zero-eig', 'rank-def') for c in cls_list):
                     continue  # Denman-Beavers needs a positive definite input
@@ -1671,9 +1814,9 @@ def _append_trailing_controls(rng, spec):
     spec['features'] = sorted(set(spec['features']) | {'trailing-control-gates'})
 
 
-def _hist_spec(rng, trailing):
+def _hist_spec(rng, trailing, special=None):
     while True:
-        spec = gen_program(rng, nmin=2, nmax=4, lmax=8)
+        spec = gen_program(rng, nmin=2, nmax=4, lmax=8, special=special)
         if sum(1 for op in spec['prog'] if op.get('p') and op['p'][0] in ('theta', 'P')) >= 2:
             break
     if trailing:
@@ -1697,7 +1840,7 @@ def _ref_at(model, spec, H, psi0, train_state, loss_fn=None):
 
 def hist_circuit(ctx, numqi, st, rep):
     rng = ctx.rng
-    spec, H, psi0, P_init = _hist_spec(rng, trailing=rep % 3 != 2)
+    spec, H, psi0, P_init = _hist_spec(rng, trailing=rep % 3 != 2, special=[None, 'mixed', None, 'noargs'][rep % 4])
     train_state = bool(rng.random() < 0.3)
     layout = 'tensor' if train_state else ['tensor', 'strided', 'real'][rep % 3]
     if layout == 'real':
@@ -1768,6 +1911,9 @@ def hist_circuit(ctx, numqi, st, rep):
                 with torch.no_grad():
                     for p_ in params:
                         p_.add_(torch.tensor(rng.normal(size=tuple(p_.shape)) * 0.7, dtype=p_.dtype))
+                        if step == 2:  # an update that lands some parameters EXACTLY on 0 (gate exactly the identity) / pi
+                            m_ = torch.tensor(rng.random(size=tuple(p_.shape)) < 0.4)
+                            p_[m_] = 0.0 if rng.random() < 0.7 else float(np.pi)
                 if step == 0:
                     model.circuit_torch.fresh_gate_parameter()  # writes the current angles and matrices into the gate objects
                 if step == 1:  # edit a trainable gate object directly: the wrapper's Parameter stays the source of truth
@@ -1896,7 +2042,49 @@ def _psd_values(rng, d, cplx, cls):
         A[np.ix_(idx, idx)] = A1
         A[k, k] = -1e-13
         return A
+    # exact special inputs: the identity, multiples of it, exactly diagonal, exactly degenerate (diagonal or permuted blocks)
+    dt = np.complex128 if cplx else np.float64
+    if cls == 'identity':
+        return np.eye(d, dtype=dt)
+    if cls == 'scaled-identity':
+        return np.eye(d, dtype=dt) * [0.25, 0.5, 2.0, 1.5][int(rng.integers(4))]
+    if cls == 'diagonal':
+        return np.diag(np.sort(rng.uniform(0.1, 2.0, size=d))[::[1, -1][int(rng.integers(2))]]).astype(dt)
+    if cls == 'diag-degenerate':
+        vals = [0.5, 1.25, 2.0]
+        return np.diag(np.array([vals[int(i)] for i in rng.integers(0, 2 if d < 4 else 3, size=d)])).astype(dt)
+    if cls == 'block-degenerate':  # [[a, b], [conj b, a]] blocks with the same (a,|b|): eigenvalues a+-|b| each repeated; entries exact
+        a, b = 1.0, (0.25 + 0.25j if cplx else 0.5)
+        A = np.eye(d, dtype=dt) * a
+        perm = rng.permutation(d)
+        for i in range(0, d - 1, 2):
+            A[perm[i], perm[i + 1]] = b
+            A[perm[i + 1], perm[i]] = np.conj(b)
+        return A
     raise KeyError(cls)
+
+
+EXACT_PSD = ['identity', 'scaled-identity', 'diagonal', 'diag-degenerate', 'block-degenerate']
+
+
+def _psd_fd(ctx, fn, op, A0, Vn, g, key, what, point, cdt, witness):
+    """finite differences of Re<V, op(A)> along random Hermitian directions through the public forward, against Re<g, E>."""
+    rng = ctx.rng
+    dirs = []
+    for _ in range(4):
+        E = _cplx(rng, A0.shape, np.iscomplexobj(A0))
+        E = (E + np.swapaxes(E.conj(), -1, -2)) / 2
+        dirs.append(E / np.abs(E).max())
+    Vt = torch.tensor(Vn, dtype=cdt)
+
+    def f(c):
+        with torch.no_grad():
+            A = torch.tensor(A0 + sum(ck * E for ck, E in zip(c, dirs)), dtype=cdt)
+            return float((op(A) * Vt.conj()).real.sum())
+    gd = np.array([float((np.conj(g) * E).real.sum()) for E in dirs])
+    lam = np.linalg.eigvalsh(A0.reshape(-1, A0.shape[-1], A0.shape[-1]))
+    kappa = float((1 / np.sqrt(lam[:, 0])).max() if fn == 'sqrtm' else (1 / lam[:, 0]).max())
+    fd_judge(ctx, f, np.zeros(4), gd, key, what, point, kappa=max(1.0, kappa), witness=witness)
 
 
 def _psd_ref_grad(fn, A, G, s, order):
@@ -1936,9 +2124,16 @@ def hist_psd(ctx, numqi, st, rep, fn):
     bshape = [(), (3,), (2, 2)][rep % 3]
     nb = int(np.prod(bshape)) if bshape else 1
     s, order = ((6, 8) if rep % 2 == 0 else (3, 5)) if fn == 'logm' else (1, 0)
-    pool = ['full', 'degenerate'] + (['zero-eig'] if fn == 'sqrtm' else [])
+    pool = ['full', 'degenerate'] + (['zero-eig'] if fn == 'sqrtm' else []) + EXACT_PSD
     cdt = (torch.complex128 if cplx else torch.float64)
-    mk = lambda: np.stack([_psd_values(rng, d, cplx, pool[int(rng.integers(len(pool)))]) for _ in range(nb)]).reshape(*bshape, d, d)
+    used = []
+
+    def mk():
+        cl = [pool[int(rng.integers(len(pool)))] for _ in range(nb)]
+        used.append(cl)
+        for c_ in cl:
+            _count(ctx, 'history_psd_inputs_by_class', f'{fn}/{c_}')
+        return np.stack([_psd_values(rng, d, cplx, c_) for c_ in cl]).reshape(*bshape, d, d)
     desc = {'kind': f'{fn}-history', 'd': d, 'complex': cplx, 'batch': list(bshape), 'pade': [s, order] if fn == 'logm' else None}
     ctx.set_case(desc)
     op = TO.PSDMatrixSqrtm.apply if fn == 'sqrtm' else TO.get_PSDMatrixLogm(s, order)  # the lru_cached shared module instance
@@ -1959,6 +2154,10 @@ def hist_psd(ctx, numqi, st, rep, fn):
         ctx.case(f'{fn}-history', d, cplx, bshape, A0, Vn, nontrivial=float(g1.abs().max()) > 1e-8,
                  sample=dict(desc, grad_max=float(g1.abs().max())) if rep < 1 else None)
         _psd_compare(ctx, fn, _np(g1), A0, Vn, s, order, f'{key}/vjp-vs-reference', f'{fn} vector-Jacobian product with an explicit cotangent', f'history/{fn}/cotangent-reuse', 1e-7, desc)
+        if 'zero-eig' not in used[0]:
+            tag = '/exact-special-input' if set(used[0]) & set(EXACT_PSD) else ''
+            _psd_fd(ctx, fn, op, A0, Vn, _np(g1), f'{key}/grad-vs-fd/hermitian-directions{tag}', f'{fn}: gradient w.r.t. the input matrix along Hermitian directions',
+                    f'history/{fn}/fd-hermitian', cdt, dict(desc, classes=used[0]))
         # expanded cotangent: F.sum() / F.mean()
         for kind in ('sum', 'mean'):
             A.grad = None
@@ -2071,6 +2270,8 @@ def order_psd(ctx, numqi, st, fn):
         'single-full': _psd_values(rng, d, cplx, 'full'),
         'single-special': _psd_values(rng, d, cplx, mixed_cls[1]),
         'batch-2x2': np.stack([_psd_values(rng, d, cplx, 'full') for _ in range(4)]).reshape(2, 2, d, d),
+        'identity': _psd_values(rng, d, cplx, 'identity'),
+        'exact-batch': np.stack([_psd_values(rng, d, cplx, c) for c in ('identity', 'diag-degenerate', 'diagonal', 'block-degenerate')]),
     }
     V = {k: _cplx(rng, v.shape, cplx) for k, v in configs.items()}
 
@@ -2082,7 +2283,7 @@ def order_psd(ctx, numqi, st, fn):
         return _np(A.grad)
 
     names = list(configs)
-    orders = [names, names[::-1], [names[i] for i in (2, 0, 4, 1, 3)]]
+    orders = [names, names[::-1], [names[i] for i in (2, 5, 0, 4, 6, 1, 3)]]
     first = {}
     for oi, seq in enumerate(orders):
         for name in seq + [seq[0]]:  # one configuration repeated at the end
@@ -2168,5 +2369,220 @@ def run_history(ctx, numqi, st, shard):
     if what in ('all', 'matrix'):
         for fn in ('sqrtm', 'logm'):
             order_psd(ctx, numqi, st, fn)
+        api_surface_matrix(ctx, numqi, st)
     if what in ('all', 'circuit'):
         order_circuit(ctx, numqi, st)
+        api_surface_circuit(ctx, numqi, st)
+
+
+# =================================================================================================== API surface
+# parameter order of the shipped public entry points (the specification for positional calls)
+SIG_MINIMIZE = ['model', 'theta0', 'num_repeat', 'tol', 'print_freq', 'method', 'print_every_round', 'maxiter', 'early_stop_threshold', 'callback', 'seed']
+SIG_PGATE = ['index', 'args', 'name', 'requires_grad']                       # Circuit.rx / ry / rz / u3 / rzz
+SIG_CPGATE = ['control_qubit', 'target_qubit', 'args', 'name', 'requires_grad']  # Circuit.crx / cry / crz / cu3
+SIG_RULE = ['q0_conj', 'q0_grad', 'op', 'index', 'tag_op_grad']
+SIG_CRULE = ['q0_conj', 'q0_grad', 'op', 'ind_control_set', 'ind_target', 'tag_op_grad']
+
+
+def _same_result(ctx, a, b, key, what, witness, tol=1e-12):
+    fa = np.concatenate([np.asarray(_np(x), dtype=np.complex128).reshape(-1) for x in a])
+    fb = np.concatenate([np.asarray(_np(x), dtype=np.complex128).reshape(-1) for x in b])
+    return ctx.close(fa, fb, tol * (1 + (np.abs(fb).max() if fb.size else 0)), key, what, witness, point='api/positional-vs-keyword')
+
+
+def api_surface_circuit(ctx, numqi, st):
+    """every documented way of calling the circuit-side entry points gives the same gradient (and the reference one)."""
+    rng = ctx.rng
+    ctx.workload('corner', 1)
+    n = 3
+    N = 2**n
+    H = rng.normal(size=(N, N)) + 1j * rng.normal(size=(N, N))
+    H = (H + H.conj().T) / 2
+    psi0 = rng.normal(size=N) + 1j * rng.normal(size=N)
+    psi0 /= np.linalg.norm(psi0)
+    a = [float(x) for x in rng.uniform(0, 2 * np.pi, size=8)]
+    prog = [{'g': 'rx', 'tgt': [0], 'ctrl': [], 'p': ['theta', 'rx', 0]}, {'g': 'u3', 'tgt': [2], 'ctrl': [], 'p': ['theta', 'u3', 0]},
+            {'g': 'rzz', 'tgt': [2, 0], 'ctrl': [], 'p': ['theta', 'rzz', 0]}, {'g': 'X', 'tgt': [1], 'ctrl': [0]},
+            {'g': 'crx', 'tgt': [1], 'ctrl': [2], 'p': ['theta', 'crx', 0]}, {'g': 'cu3', 'tgt': [0], 'ctrl': [1, 2], 'p': ['theta', 'cu3', 0]}]
+    theta = {'rx': [[a[0]]], 'u3': [a[1:4]], 'rzz': [[a[4]]], 'crx': [[a[5]]], 'cu3': [[a[6], a[7], a[0]]]}
+    spec = {'n': n, 'prog': prog, 'mats': {}, 'theta': theta, 'features': [], 'special': None}
+    i64, f64 = np.int64, np.float64
+
+    def build(form):
+        c = numqi.sim.Circuit(default_requires_grad=True)
+        if form == 'positional':
+            c.rx(0, a[0], 'rx', True); c.u3(2, tuple(a[1:4]), 'u3', True); c.rzz((2, 0), a[4], 'rzz', True); c.cnot(0, 1)
+            c.crx(2, 1, a[5], 'crx', True); c.cu3((1, 2), 0, (a[6], a[7], a[0]), 'cu3', True)
+        elif form == 'keyword':
+            c.rx(index=0, args=a[0], name='rx', requires_grad=True); c.u3(requires_grad=True, name='u3', args=tuple(a[1:4]), index=2)
+            c.rzz(args=a[4], index=(2, 0)); c.cnot(control_qubit=0, target_qubit=1)
+            c.crx(control_qubit=2, target_qubit=1, args=a[5], name='crx', requires_grad=True)
+            c.cu3(target_qubit=0, control_qubit=(1, 2), args=(a[6], a[7], a[0]))
+        elif form == 'numpy-scalars':
+            c.rx(i64(0), f64(a[0])); c.u3(i64(2), np.array(a[1:4])); c.rzz(np.array([2, 0]), f64(a[4])); c.cx(i64(0), i64(1))
+            c.crx(i64(2), i64(1), f64(a[5])); c.cu3(np.array([1, 2]), i64(0), np.array([a[6], a[7], a[0]]))
+        elif form == 'sequences':
+            c.rx((0,), (a[0],)); c.u3([2], list(a[1:4])); c.rzz([2, 0], [a[4]]); c.cx((0,), (1,))
+            c.crx([2], [1], [a[5]]); c.cu3({2, 1}, (0,), [a[6], a[7], a[0]])
+        elif form == 'defaults-then-bridge':  # gates built with args=None, values supplied through the flat-parameter bridge
+            c.rx(0); c.u3(2); c.rzz((2, 0)); c.cnot(0, 1); c.crx(2, 1); c.cu3((1, 2), 0)
+        return c
+
+    class M(torch.nn.Module):
+        def __init__(self, circ):
+            super().__init__()
+            self.circuit_torch = numqi.sim.CircuitTorchWrapper(circ)
+            self.H = torch.tensor(H)
+            self.psi0 = torch.tensor(psi0)
+
+        def forward(self):
+            q = self.circuit_torch(self.psi0)
+            return torch.vdot(q, self.H @ q).real
+
+    results = {}
+    for form in ('positional', 'keyword', 'numpy-scalars', 'sequences', 'defaults-then-bridge'):
+        ctx.set_case({'kind': 'api-circuit', 'form': form})
+        with ctx.guard(f'api/circuit-{form}'):
+            model = M(build(form))
+            named, names_shapes = _params_of(model)
+            hf = numqi.optimize.hf_model_wrapper(model) if form != 'keyword' else numqi.optimize.hf_model_wrapper(model=model)
+            flat = flat_from_dict(names_shapes, {'circuit_torch.theta.' + k: np.array(v) for k, v in theta.items()})
+            r0 = hf(flat)
+            r1 = hf(flat, True)
+            r2 = hf(flat, tag_grad=True)
+            r3 = hf(flat, np.True_)
+            f0 = hf(flat, False)
+            f1 = hf(flat, tag_grad=False)
+            _same_result(ctx, [r1[0], r1[1], r2[0], r2[1], r3[0], r3[1]], [r0[0], r0[1]] * 3, 'hf_model_wrapper/closure/explicit-default-differs',
+                         'closure(theta) differs from closure(theta, True) / closure(theta, tag_grad=True) / closure(theta, np.True_)', form)
+            _same_result(ctx, [f0, f1], [r0[0], r0[0]], 'hf_model_wrapper/closure/positional-call-differs-from-keyword-call',
+                         'closure(theta, False) / closure(theta, tag_grad=False) differ from the value returned with the gradient', form)
+            results[form] = r0
+            lref, gref, _ = ref_circuit(spec, dict_from_flat(names_shapes, flat), H, psi0, False)
+            cmp_grad(ctx, r0[1], flat_from_dict(names_shapes, gref), f'circuit/grad-vs-autograd/api-form({form})', f'circuit built through the {form} API form',
+                     'api/circuit-forms', classes=coordinate_classes(spec, names_shapes), witness=form)
+            ctx.case('api-circuit', form, a, nontrivial=True)
+    for form, r in results.items():
+        if form != 'positional' and 'positional' in results:
+            key = 'Circuit.gate/positional-call-differs-from-keyword-call' if form == 'keyword' else f'Circuit.gate/argument-form-dependent({form})'
+            _same_result(ctx, [r[0], r[1]], list(results['positional']), key, f'the circuit built through the {form} form gives a different (loss, gradient)', form)
+    # numqi.optimize.minimize: positional in the shipped order vs keywords (same start, same seed)
+    ctx.set_case({'kind': 'api-minimize'})
+    with ctx.guard('api/minimize'):
+        st['every'] = 4
+        try:
+            m1, m2 = M(build('positional')), M(build('positional'))
+            t0 = np.array([0.3 + 0.1 * i for i in range(9)])
+            r_pos = numqi.optimize.minimize(m1, t0, 1, 1e-10, 0, 'L-BFGS-B', 0, 4, None, None, 11)
+            r_kw = numqi.optimize.minimize(model=m2, theta0=t0, num_repeat=1, tol=1e-10, print_freq=0, method='L-BFGS-B', print_every_round=0, maxiter=4,
+                                           early_stop_threshold=None, callback=None, seed=11)
+            _same_result(ctx, [r_pos.x, r_pos.fun], [r_kw.x, r_kw.fun], 'minimize/positional-call-differs-from-keyword-call',
+                         'numqi.optimize.minimize called positionally (shipped parameter order) and with keywords give different results', SIG_MINIMIZE)
+        finally:
+            st['every'] = 1
+    # the per-gate adjoint rules: positional / keyword / flag and index types, and the reference vector-Jacobian product
+    S = numqi.sim.state
+    for ctrl in ((), (2,), (0, 2)):
+        ctx.set_case({'kind': 'api-rule', 'controls': list(ctrl)})
+        with ctx.guard('api/adjoint-rule'):
+            tg = (1,) if ctrl else (3, 1)
+            nq = 4
+            op = rand_unitary(rng, 2**len(tg))
+            qout = rng.normal(size=2**nq) + 1j * rng.normal(size=2**nq)
+            gq = rng.normal(size=2**nq) + 1j * rng.normal(size=2**nq)
+            if ctrl:
+                base = S.apply_control_n_gate_grad(qout.conj(), gq, op, set(ctrl), tg, True)
+                forms = {'keyword': lambda: S.apply_control_n_gate_grad(q0_conj=qout.conj(), q0_grad=gq, op=op, ind_control_set=set(ctrl), ind_target=tg, tag_op_grad=True),
+                         'default-flag': lambda: S.apply_control_n_gate_grad(qout.conj(), gq, op, set(ctrl), tg),
+                         'numpy-flag-list-index': lambda: S.apply_control_n_gate_grad(qout.conj(), gq, op, list(ctrl), list(tg), np.True_),
+                         'tuple-controls-int-target': lambda: S.apply_control_n_gate_grad(qout.conj(), gq, op, tuple(ctrl) if len(ctrl) > 1 else ctrl[0], tg[0], 1)}
+            else:
+                base = S.apply_gate_grad(qout.conj(), gq, op, tg, True)
+                forms = {'keyword': lambda: S.apply_gate_grad(q0_conj=qout.conj(), q0_grad=gq, op=op, index=tg, tag_op_grad=True),
+                         'default-flag': lambda: S.apply_gate_grad(qout.conj(), gq, op, tg),
+                         'numpy-flag-list-index': lambda: S.apply_gate_grad(qout.conj(), gq, op, [np.int64(t) for t in tg], np.True_)}
+            for name, fcall in forms.items():
+                _same_result(ctx, list(fcall()), list(base), ('apply_control_n_gate_grad' if ctrl else 'apply_gate_grad') +
+                             ('/positional-call-differs-from-keyword-call' if name == 'keyword' else f'/argument-form-dependent({name})'),
+                             f'adjoint rule called in the {name} form differs from the positional call', {'controls': list(ctrl), 'targets': list(tg)})
+            opt = torch.tensor(op, requires_grad=True)
+            E = R.embed(opt, tg, nq, ctrl)
+            qin = torch.linalg.solve(E.detach(), torch.tensor(qout))
+            qin_t = qin.clone().requires_grad_()
+            out = E @ qin_t
+            ref_op, ref_q = torch.autograd.grad(out, [opt, qin_t], grad_outputs=torch.tensor(gq))
+            _same_result(ctx, [base[0], base[1], base[2]], [qin.conj(), ref_q, ref_op], ('apply_control_n_gate_grad' if ctrl else 'apply_gate_grad') + '/vs-reference-vjp',
+                         'adjoint rule differs from the vector-Jacobian product of the dense embedded operator', {'controls': list(ctrl), 'targets': list(tg)}, tol=1e-10)
+            ctx.case('api-rule', ctrl, tg, op, nontrivial=True)
+
+
+def api_surface_matrix(ctx, numqi, st):
+    rng = ctx.rng
+    ctx.workload('corner', 1)
+    TO = numqi._torch_op
+    d = 3
+    A0 = _psd_values(rng, d, True, 'full')
+    Vn = _cplx(rng, (d, d), True)
+
+    def grad_with(op):
+        A = torch.tensor(A0, requires_grad=True)
+        F = op(A)
+        (F * torch.tensor(Vn).conj()).real.sum().backward()
+        return [F.detach(), A.grad]
+    ctx.set_case({'kind': 'api-logm'})
+    with ctx.guard('api/logm'):
+        base = grad_with(TO.PSDMatrixLogm(6, 8))
+        for name, op in {'PSDMatrixLogm(keywords)': TO.PSDMatrixLogm(num_sqrtm=6, pade_order=8), 'PSDMatrixLogm(explicit device)': TO.PSDMatrixLogm(6, 8, 'cpu'),
+                         'get_PSDMatrixLogm(positional)': TO.get_PSDMatrixLogm(6, 8), 'get_PSDMatrixLogm(keywords)': TO.get_PSDMatrixLogm(num_sqrtm=6, pade_order=8),
+                         'get_PSDMatrixLogm(numpy ints)': TO.get_PSDMatrixLogm(np.int64(6), np.int64(8))}.items():
+            _same_result(ctx, grad_with(op), base, 'PSDMatrixLogm/positional-call-differs-from-keyword-call', f'{name} differs from PSDMatrixLogm(6, 8)', name)
+        _psd_compare(ctx, 'logm', _np(base[1]), A0, Vn, 6, 8, 'logm/vjp-vs-reference', 'PSDMatrixLogm(6,8) gradient', 'api/positional-vs-keyword', 1e-7, 'api')
+    ctx.set_case({'kind': 'api-entropy'})
+    with ctx.guard('api/entropy'):
+        U = numqi.utils
+        rho0 = rand_dm(rng, d, mix=0.2)
+        sig0 = rand_dm(rng, d, mix=0.2)
+
+        def ent(call):
+            r = torch.tensor(rho0, requires_grad=True)
+            s_ = torch.tensor(sig0, requires_grad=True)
+            v = call(r, s_)
+            v.backward()
+            return [v.detach(), torch.zeros_like(r) if r.grad is None else r.grad, torch.zeros_like(s_) if s_.grad is None else s_.grad]
+        b = ent(lambda r, s_: U.get_relative_entropy(r, s_, None, ('pade', 6, 8)))
+        _same_result(ctx, ent(lambda r, s_: U.get_relative_entropy(rho=r, sigma=s_, tr_rho_log_rho=None, _torch_logm=('pade', 6, 8))), b,
+                     'get_relative_entropy/positional-call-differs-from-keyword-call', 'keyword call differs from positional call', 'api')
+        _same_result(ctx, ent(lambda r, s_: U.get_relative_entropy(r, s_)), b, 'get_relative_entropy/explicit-default-differs',
+                     "get_relative_entropy(rho, sigma) differs from the call with the defaults (None, ('pade',6,8)) passed explicitly", 'api')
+        b = ent(lambda r, s_: U.get_von_neumann_entropy(r, ('pade', 6, 8)))
+        _same_result(ctx, ent(lambda r, s_: U.get_von_neumann_entropy(rho=r, _torch_logm=('pade', 6, 8))), b,
+                     'get_von_neumann_entropy/positional-call-differs-from-keyword-call', 'keyword call differs from positional call', 'api')
+    # VarQEC / VarQECUnitary constructors
+    ctx.set_case({'kind': 'api-varqec'})
+    with ctx.guard('api/varqec'):
+        ops = numqi.qec.make_error_list(3, 2)
+
+        def mk_circ():
+            c = numqi.sim.Circuit(default_requires_grad=True)
+            for x in range(3):
+                c.u3(x)
+            for x in range(3):
+                c.cu3(x, (x + 1) % 3)
+            return c
+        theta = rng.uniform(0, 2 * np.pi, size=18)
+        for K in (2, 3):
+            r_pos = numqi.optimize.hf_model_wrapper(numqi.qec.VarQEC(mk_circ(), K, ops, 'L1'))(theta)
+            r_kw = numqi.optimize.hf_model_wrapper(numqi.qec.VarQEC(circuit=mk_circ(), num_logical_dim=K, error_list=ops, loss_type='L1'))(theta)
+            _same_result(ctx, list(r_kw), list(r_pos), 'VarQEC/positional-call-differs-from-keyword-call', 'VarQEC built positionally and with keywords differ', K)
+            r_def = numqi.optimize.hf_model_wrapper(numqi.qec.VarQEC(mk_circ(), K, ops))(theta)
+            r_l2 = numqi.optimize.hf_model_wrapper(numqi.qec.VarQEC(mk_circ(), K, ops, 'L2'))(theta)
+            _same_result(ctx, list(r_def), list(r_l2), 'VarQEC/explicit-default-differs', "VarQEC(..., loss_type='L2') differs from the default", K)
+            mu1, mu2 = numqi.qec.VarQECUnitary(3, K, ops, 'L1'), numqi.qec.VarQECUnitary(num_qubit=3, num_logical_dim=K, error_list=ops, loss_type='L1')
+            th = rng.uniform(-1, 1, size=sum(int(np.prod(v.shape)) for _, v in sorted_named(mu1)))
+            st['closure'] = {'key': 'varqec-unitary/grad-vs-fd', 'point': 'varqec/grad-vs-fd', 'kappa': 10.0, 'tag': 'api'}
+            try:
+                _same_result(ctx, list(numqi.optimize.hf_model_wrapper(mu2)(th)), list(numqi.optimize.hf_model_wrapper(mu1)(th)),
+                             'VarQECUnitary/positional-call-differs-from-keyword-call', 'VarQECUnitary built positionally and with keywords differ', K)
+            finally:
+                st['closure'] = None
+        ctx.case('api-varqec', theta, nontrivial=True)
